@@ -425,7 +425,7 @@ func c04Gen(r *rand.Rand) *c04Case {
 		// inserts the configured text verbatim, like prefix and suffix values of the format)
 		alt := evasionCfg{Unix: `(?:x|y)`, Windows: `q?`, SuffixUnix: `_su_`, SuffixWindows: `_sw_`, NoSpUnix: `_nu_`, NoSpWindows: `_nw_`}
 		c.CfgName, c.Effective, c.Exact = "quoted-and-alternation", alt, true
-		c.CfgYAML = "patterns:\n  anti_evasion:\n    unix: \"  (?:x|y)  \"\n    windows: 'q?'\n  anti_evasion_suffix:\n    unix: _su_\n    windows: _sw_\n  anti_evasion_no_space_suffix:\n    unix: >\n      _nu_\n    windows: _nw_\n"
+		c.CfgYAML = "patterns:\n  anti_evasion:\n    unix: \"  (?:x|y)  \"\n    windows: 'q? '\n  anti_evasion_suffix:\n    unix: \"_su_ \"\n    windows: |\n      _sw_  \t\n  anti_evasion_no_space_suffix:\n    unix: >\n      _nu_   \n    windows: \" _nw_\"\n"
 	}
 	return c
 }
@@ -437,7 +437,7 @@ func init() {
 		Rule: "generated cmdline blocks (unix/windows; 1..5 words over letters, digits, '.', '-', '_', space, with @ / ~ / escaped markers and quote lines; bare, beside plain entries, nested in an assemble block between markers, fed through an include) x 13 configurations of toolchain.yaml (the CRS patterns, distinct literal markers per key and OS, starred classes, absent file, empty file, partial keys, invalid YAML, valid YAML with a wrongly typed value, a directory in place of the file, another file selected with -f next to a decoy default, quoted/folded scalars with a grouped alternation) are compiled by the built CLI. " +
 			"Oracle (membership): for every word the word itself and up to 14 variants with strings inserted between adjacent characters — drawn by random walks from the configured pattern's syntax tree and validated against the plain reading of that single word with Go's regexp — must be matched by the output under search semantics; @/~ variants carry a sampled member of the configured suffix; in single-word programs the bare word (suffix demanded), the word without its escaped marker, the word without its space and the word with '.'/'-' replaced must not be matched; quote lines pass through. For concatenation-safe patterns the output is also compared exactly with the plain-reading model under the configuration in force. Non-trivial = >= 3 validated variants.",
 		Cases: func(env *core.Env, rng *rand.Rand) []core.Case {
-			n := env.N(600, 12000)
+			n := env.N(2000, 20000)
 			var cs []core.Case
 			for i := 0; i < n; i++ {
 				cs = append(cs, c04Gen(rng))
